@@ -104,7 +104,13 @@ func runOpHold(w workload, shared []*subject, o wop) (string, io.Reader) {
 		if !ok {
 			return "n/a", nil
 		}
-		r, err := ex.ExportWithString(o.Tpl)
+		var r io.Reader
+		var err error
+		if len(o.Tpl)%2 == 1 { // every other template goes through the reader entry point
+			r, err = ex.ExportWith(strings.NewReader(o.Tpl))
+		} else {
+			r, err = ex.ExportWithString(o.Tpl)
+		}
 		if err != nil {
 			return "error:" + errStr(err), nil
 		}
@@ -146,7 +152,13 @@ func runOpPlain(w workload, shared []*subject, o wop) string {
 		if !ok {
 			return "n/a"
 		}
-		r, err := ex.ExportWithString(o.Tpl)
+		var r io.Reader
+		var err error
+		if len(o.Tpl)%2 == 1 {
+			r, err = ex.ExportWith(strings.NewReader(o.Tpl))
+		} else {
+			r, err = ex.ExportWithString(o.Tpl)
+		}
 		if err != nil {
 			return "error:" + errStr(err)
 		}
